@@ -86,7 +86,7 @@ class YowStackBuilder(object):
         :return: YowStack
         """
 
-        allLayers = YowStackBuilder.getDefaultLayers(axolotl, groups = groups, media=media,privacy=privacy, profiles=profiles)
+        allLayers = YowStackBuilder.getDefaultLayers(groups = groups, media=media,privacy=privacy, profiles=profiles)
         if layer:
             allLayers = allLayers + (layer,)
 
